@@ -192,6 +192,15 @@ func (e *Env) Do(op Op) *Res {
 				}
 				ctx, sr.Cancel = context.WithCancel(context.WithValue(base, ctxKey{}, op.Bind))
 				sr.CallerCtx = ctx
+			case "from-s1":
+				// a cancellable context derived from the Context() of scope s1 (which need not be the parent):
+				// it already carries ANOTHER scope
+				var base context.Context = context.Background()
+				if o := e.Scopes["s1"]; o != nil && o.S != nil {
+					base = o.S.Context()
+				}
+				ctx, sr.Cancel = context.WithCancel(context.WithValue(base, ctxKey{}, op.Bind))
+				sr.CallerCtx = ctx
 			case "cancel":
 				base := context.WithValue(context.Background(), ctxKey{}, op.Bind)
 				ctx, sr.Cancel = context.WithCancel(base)
